@@ -98,7 +98,8 @@ def run_tlc(
     meta = OUT / "tlc" / tag
     shutil.rmtree(meta, ignore_errors=True)
     meta.mkdir(parents=True, exist_ok=True)
-    cmd = ["java", "-XX:+UseParallelGC"]
+    (meta / "tmp").mkdir(exist_ok=True)  # TLC unpacks the community modules into java.io.tmpdir and leaves them there: keep that inside
+    cmd = ["java", "-XX:+UseParallelGC", f"-Djava.io.tmpdir={meta / 'tmp'}"]  # the metadir, which is removed when the run is over
     if xss:
         cmd.append(f"-Xss{xss}")
     if xmx:
